@@ -109,3 +109,21 @@ func TestDebugC21Rejects(t *testing.T) {
 		fmt.Println(v, k)
 	}
 }
+
+func TestDebugC16Case(t *testing.T) {
+	if os.Getenv("VERIF_DEBUG_IDX") == "" {
+		t.Skip()
+	}
+	var idx int
+	fmt.Sscan(os.Getenv("VERIF_DEBUG_IDX"), &idx)
+	c := rapid.Custom(c16GenCase).Example(1000003 + idx)
+	u := batch.Unit{Name: "g", TM: c.render("g"), Adapter: actionAdapter}
+	fmt.Println(u.TM)
+	res := batch.Generate(&u)
+	fmt.Println("compile:", res.CompileErr, "gen:", res.GenErr)
+	for i, l := range strings.Split(res.Files["parser.go"], "\n") {
+		if strings.Contains(l, "verifObs") || strings.Contains(l, "case ") {
+			fmt.Printf("%d: %s\n", i+1, l)
+		}
+	}
+}
